@@ -1,5 +1,6 @@
 import CalVerif.Lemmas.OdsRange
 import CalVerif.Lemmas.OdsCell
+import CalVerif.Lemmas.OdsSheet
 /-! # C04 — ODS: cells read back at their position; repeat counts expand faithfully
 
     Property theorems only (helper lemmas live in `Lemmas/OdsRange.lean`).
@@ -185,6 +186,57 @@ theorem ods_range_spec_formulas {β : Type} [Inhabited β] [DecidableEq β] (run
     (by intro e he; simp only [pendVF, Bool.and_eq_true, decide_eq_true_eq] at he; exact he.2) runs hwf
   exact ⟨R, h0, h1, h2, h4⟩
 
+/-! ## covered cells: the element kind is part of the row events -/
+
+/-- well-formed run list with element kinds (payload seen through `val`) -/
+def WFK {ε : Type} (val : ε → α) (runs : List (RowRunK ε)) : Prop :=
+  (∀ r ∈ runs, 1 ≤ r.1) ∧ ∀ p q, expandK val runs p q ≠ default → p < U32 ∧ q < U32
+
+/-- generic form over events `(kind, payload, repeat)`: `expandK` counts an event of either kind — a
+    `table:table-cell` or a `table:covered-table-cell` — as `repeat` columns holding the event's content -/
+theorem ods_range_spec_kinds {ε : Type} (pend : ε → Bool) (val : ε → α)
+    (hp : ∀ e, pend e = true → val e = default) (runs : List (RowRunK ε)) (hwf : WFK val runs) :
+    ∃ R, getRange (flatten (collectKG pend val runs)) = .ok R ∧ Inv R ∧
+      (∀ p q, R.valAt p q = expandK val runs p q) ∧
+      (R.inner.length = 0 ↔ ∀ p q, expandK val runs p q = default) ∧
+      (R.inner.length ≠ 0 → IsBBox (expandK val runs) R.sr R.sc R.er R.ec) ∧
+      (R.inner.length = 0 → R = Range.empty) := by
+  have hexp : expand (runsOf val (eraseKinds runs)) = expandK val runs := by
+    funext r c; exact (expandK_eq val runs r c).symm
+  have hwf' : WF (runsOf val (eraseKinds runs)) := by
+    refine ⟨?_, by rw [hexp]; exact hwf.2⟩
+    intro r hr
+    simp only [runsOf, eraseKinds, List.map_map, List.mem_map] at hr
+    obtain ⟨x, hx, rfl⟩ := hr
+    exact hwf.1 x hx
+  have := ods_range_spec_gen pend val hp (eraseKinds runs) hwf'
+  rw [hexp, ← collectKG_eq] at this
+  exact this
+
+/-- **C04 with covered cells**: the main statement for run lists whose cell events are ordinary or covered
+    cells, each with its repeat count and whatever value it carries. Rows and columns are counted through every
+    covered cell: it occupies `repeat` columns exactly like an ordinary cell, and a covered cell with content is
+    stored like any cell (`expandK`) -/
+theorem ods_range_spec_covered (runs : List (RowRunK α)) (hwf : WFK id runs) :
+    ∃ R, getRange (collectK runs) = .ok R ∧ Inv R ∧
+      (∀ p q, R.valAt p q = expandK id runs p q) ∧
+      (R.inner.length = 0 ↔ ∀ p q, expandK id runs p q = default) ∧
+      (R.inner.length ≠ 0 → IsBBox (expandK id runs) R.sr R.sc R.er R.ec) ∧
+      (R.inner.length = 0 → R = Range.empty) :=
+  ods_range_spec_kinds (fun v : α => decide (v = default)) id (by intro e he; simpa using he) runs hwf
+
+/-- turning ordinary cells into covered cells or back (same contents, same repeat counts) changes nothing -/
+theorem ods_kind_irrelevant (runs₁ runs₂ : List (RowRunK α)) (h : eraseKinds runs₁ = eraseKinds runs₂) :
+    getRange (collectK runs₁) = getRange (collectK runs₂) ∧ expandK id runs₁ = expandK id runs₂ := by
+  constructor
+  · unfold collectK; rw [collectKG_eq, collectKG_eq, h]
+  · funext r c; rw [expandK_eq, expandK_eq, h]
+
+/-- non-vacuity: `[covered, 7 (covered, ×2), _, 5]` / 3 blank covered cells / `[_ ×4, 5]` -/
+example : getRange (collectK ([(1, [(.covered, 0, 1), (.covered, 7, 2), (.cell, 0, 1), (.cell, 5, 1)]),
+      (1, [(.covered, 0, 3)]), (1, [(.cell, 0, 4), (.covered, 5, 1)])] : List (RowRunK Nat))) =
+    .ok ⟨0, 1, 2, 4, [7, 7, 0, 5, 0, 0, 0, 0, 0, 0, 0, 5]⟩ := by rfl
+
 /-! ## D19 and non-vacuity -/
 
 /-- the D19 witness rows `[_,1,2] / [] / [_,3]` as cell events -/
@@ -262,38 +314,19 @@ namespace OdsCell
 
 /-- **the first value attribute decides, whatever the attribute order**: if `a` is the first value-carrying
     attribute of the element (`office:value` that parses, `office:string-value`, `office:date-value`,
-    `office:time-value`, `office:boolean-value`), the cell's value is `a`'s value — float, percentage and currency
-    cells (all `office:value`) as `Float`, `string-value` as `String`, `date-value` as `DateTimeIso`, `time-value`
-    as `DurationIso`, `boolean-value` as `Bool` — wherever `office:value-type`, `table:formula`, the repeat
-    counts and any other attributes stand; the formula is the last `table:formula`; the text content is not used -/
+    `office:time-value`, `office:boolean-value`), the cell's value is `a`'s value, wherever `office:value-type`,
+    `table:formula`, the repeat counts and any other attributes stand; the formula is the last `table:formula`;
+    the text content is not used.
+
+    Reading note: "the *first* value attribute wins" describes what the code does on elements that carry several
+    value attributes of different kinds, or a value attribute that contradicts `office:value-type`. Such elements are
+    not well-formed ODF; for well-formed ODF (exactly one value attribute, the one that belongs to the element's
+    `office:value-type`) the statement is unambiguous and is spelled out kind by kind in `datatype_wellformed_*`
+    below — that is what the property text lists. -/
 theorem datatype_first_value (pre post : List Attr) (a : Attr) (ha : a.isValue = true) (hp : a ≠ .value none)
     (hpre : ∀ x ∈ pre, x.isValue = false) :
-    getDatatype (pre ++ a :: post) = some ⟨a.valOf, formulaAfter "" (pre ++ a :: post), false⟩ := by
-  unfold getDatatype
-  rw [loop_append, loop_unset pre {} rfl hpre]
-  simp only [Option.bind_some, loop]
-  have hstep : step { formula := formulaAfter "" pre, isString := stringAfter false pre } a =
-      some { val := a.valOf, isValueSet := true, isString := stringAfter false pre, formula := formulaAfter "" pre } := by
-    cases a with
-    | value parsed =>
-      cases parsed with
-      | none => exact absurd rfl hp
-      | some bits => rfl
-    | stringValue t => rfl
-    | dateValue t => rfl
-    | timeValue t => rfl
-    | boolValue raw => rfl
-    | valueType raw => simp [Attr.isValue] at ha
-    | formula f => simp [Attr.isValue] at ha
-    | other => simp [Attr.isValue] at ha
-  rw [hstep]
-  simp only
-  rw [loop_set post _ rfl]
-  simp only [Bool.not_true, Bool.false_and, Option.some.injEq, Out.mk.injEq, true_and, and_true]
-  rw [formulaAfter_append]
-  have : formulaAfter (formulaAfter "" pre) (a :: post) = formulaAfter (formulaAfter "" pre) post := by
-    cases a <;> first | rfl | (simp [Attr.isValue] at ha; done)
-  rw [this]
+    getDatatype (pre ++ a :: post) = some ⟨a.valOf, formulaAfter "" (pre ++ a :: post), false⟩ :=
+  getDatatype_first_value pre post a ha hp hpre
 
 /-- **order independence**: an element with exactly one value-carrying attribute reads as that attribute's
     value under every ordering of its attributes -/
@@ -305,14 +338,134 @@ theorem datatype_order_independent (attrs : List Attr) (a : Attr) (h : attrs.fil
 /-- without a value attribute the cell is empty, unless its (last) `office:value-type` is `string`: then the
     value is the element's text content -/
 theorem datatype_no_value (attrs : List Attr) (h : ∀ x ∈ attrs, x.isValue = false) :
-    getDatatype attrs = some ⟨.empty, formulaAfter "" attrs, stringAfter false attrs⟩ := by
-  unfold getDatatype
-  rw [loop_unset attrs {} rfl h]
-  simp
+    getDatatype attrs = some ⟨.empty, formulaAfter "" attrs, stringAfter false attrs⟩ :=
+  getDatatype_no_value attrs h
+
+/-! ### well-formed ODF cells, kind by kind (what the property text lists)
+
+    `WellFormed attrs vt` : the element has exactly one `office:value-type`, namely `vt`. Together with "exactly one
+    value attribute, the one belonging to `vt`" (or none, for a string cell whose text is its content) this is the
+    shape ODF 1.2 §19.385 prescribes; the attribute order and any further attributes are free. -/
+
+/-- the element's only `office:value-type` is `vt` -/
+def WellFormed (attrs : List Attr) (vt : String) : Prop :=
+  Attr.valueType vt ∈ attrs ∧ ∀ raw, Attr.valueType raw ∈ attrs → raw = vt
+
+theorem wf_value (attrs : List Attr) (a : Attr) (h : attrs.filter Attr.isValue = [a]) (hp : a ≠ .value none) :
+    getDatatype attrs = some ⟨a.valOf, cellFormula attrs, false⟩ := by
+  obtain ⟨pre, post, rfl, hpre, ha, _⟩ := List.filter_eq_cons_iff.1 h
+  exact getDatatype_first_value pre post a ha hp (fun x hx => by simpa using hpre x hx)
+
+/-- float, percentage and currency cells (`office:value="…"`, parsed by `f64::from_str` to `bits`) read as `Float` -/
+theorem datatype_wellformed_float (attrs : List Attr) (vt : String) (bits : Nat)
+    (_hvt : vt = "float" ∨ vt = "percentage" ∨ vt = "currency") (_hwf : WellFormed attrs vt)
+    (h : attrs.filter Attr.isValue = [.value (some bits)]) :
+    getDatatype attrs = some ⟨.float bits, cellFormula attrs, false⟩ :=
+  wf_value attrs _ h (by simp)
+
+/-- string cells with `office:string-value` read as `String` of the attribute -/
+theorem datatype_wellformed_string_attr (attrs : List Attr) (t : String) (_hwf : WellFormed attrs "string")
+    (h : attrs.filter Attr.isValue = [.stringValue t]) :
+    getDatatype attrs = some ⟨.str t, cellFormula attrs, false⟩ :=
+  wf_value attrs _ h (by simp)
+
+/-- string cells without a value attribute take their text content (`useText`; the content is what
+    `XmlText.odsCellText` of C19 reads from the children, see `sheet_spec`) -/
+theorem datatype_wellformed_string_text (attrs : List Attr) (hwf : WellFormed attrs "string")
+    (h : attrs.filter Attr.isValue = []) :
+    getDatatype attrs = some ⟨.empty, cellFormula attrs, true⟩ ∧ ∀ content, cellValue attrs content = .str content := by
+  have hall : ∀ x ∈ attrs, x.isValue = false := by
+    intro x hx
+    cases hv : x.isValue with
+    | false => rfl
+    | true =>
+      have : x ∈ attrs.filter Attr.isValue := List.mem_filter.2 ⟨hx, hv⟩
+      rw [h] at this; simp at this
+  have hs : stringAfter false attrs = true := stringAfter_of_all attrs false hwf.2 (Or.inr hwf.1)
+  refine ⟨by rw [getDatatype_no_value attrs hall, hs]; rfl, ?_⟩
+  intro content
+  have hf : attrs.find? Attr.isValue = none := List.find?_eq_none.2 (fun x hx => by simp [hall x hx])
+  simp only [cellValue, hf, hs, if_true]
+
+/-- boolean cells (`office:boolean-value="true"` / `"false"`) read as `Bool` -/
+theorem datatype_wellformed_boolean (attrs : List Attr) (b : Bool) (_hwf : WellFormed attrs "boolean")
+    (h : attrs.filter Attr.isValue = [.boolValue (if b then "true" else "false")]) :
+    getDatatype attrs = some ⟨.bool b, cellFormula attrs, false⟩ := by
+  rw [wf_value attrs _ h (by simp)]
+  cases b <;> rfl
+
+/-- date cells (`office:date-value`) read as `DateTimeIso` of the attribute text -/
+theorem datatype_wellformed_date (attrs : List Attr) (t : String) (_hwf : WellFormed attrs "date")
+    (h : attrs.filter Attr.isValue = [.dateValue t]) :
+    getDatatype attrs = some ⟨.dateIso t, cellFormula attrs, false⟩ :=
+  wf_value attrs _ h (by simp)
+
+/-- time cells (`office:time-value`) read as `DurationIso` of the attribute text -/
+theorem datatype_wellformed_time (attrs : List Attr) (t : String) (_hwf : WellFormed attrs "time")
+    (h : attrs.filter Attr.isValue = [.timeValue t]) :
+    getDatatype attrs = some ⟨.durIso t, cellFormula attrs, false⟩ :=
+  wf_value attrs _ h (by simp)
 
 /-- non-vacuity: a currency cell with its attributes in an unusual order, a display style and a formula -/
 example : getDatatype [.other, .formula "of:=[.A1]*2", .value (some 4614253070214989087), .valueType "currency", .other] =
     some ⟨.float 4614253070214989087, "of:=[.A1]*2", false⟩ := by decide
 
 end OdsCell
+
+/-! ## the whole sheet: from row / cell events to the two ranges -/
+namespace OdsSheet
+open OdsRange OdsCell Range
+
+/-- **sheet_spec** — `read_table` from EVENTS to ranges. Row events carry `number-rows-repeated`; cell events
+    carry the element kind (ordinary / covered), the attributes, `number-columns-repeated` and the child events.
+    If every cell types (`CellOk`: a leading `office:value` parses; the text of a string cell without value
+    attribute is readable by C19's `XmlText.odsCellText`), row repeats are ≥ 1 and positions fit `u32`, then
+    `worksheet_range` is the tight bounding box of the non-empty TYPED values with every value at its absolute
+    position, and `worksheet_formula` likewise for the formulas — typing by `OdsCell.cellValue` / `cellFormula`
+    (= `get_datatype`, `datatype_first_value` / `datatype_no_value`), positions counted through every row repeat,
+    column repeat and covered cell (`sheetValue` / `sheetFormula` = `expandK` of `typedRuns`). -/
+theorem sheet_spec (rows : List (Nat × List CellEv)) (hok : ∀ row ∈ rows, ∀ ev ∈ row.2, CellOk ev)
+    (hv : WFK (fun e : Val × String => e.1) (typedRuns rows))
+    (hf : WFK (fun e : Val × String => e.2) (typedRuns rows)) :
+    ∃ V F, readTable rows = .ok (V, F) ∧
+      Inv V ∧ (∀ p q, V.valAt p q = sheetValue rows p q) ∧
+      (V.inner.length = 0 ↔ ∀ p q, sheetValue rows p q = .empty) ∧
+      (V.inner.length ≠ 0 → IsBBox (sheetValue rows) V.sr V.sc V.er V.ec) ∧
+      Inv F ∧ (∀ p q, F.valAt p q = sheetFormula rows p q) ∧
+      (F.inner.length = 0 ↔ ∀ p q, sheetFormula rows p q = "") ∧
+      (F.inner.length ≠ 0 → IsBBox (sheetFormula rows) F.sr F.sc F.er F.ec) := by
+  obtain ⟨V, v0, v1, v2, v3, v4, _⟩ := ods_range_spec_kinds (pendVF (α := Val) (β := String)) (fun e => e.1)
+    (by intro e he; simp only [pendVF, Bool.and_eq_true, decide_eq_true_eq] at he; exact he.1) (typedRuns rows) hv
+  obtain ⟨F, f0, f1, f2, f3, f4, _⟩ := ods_range_spec_kinds (pendVF (α := Val) (β := String)) (fun e => e.2)
+    (by intro e he; simp only [pendVF, Bool.and_eq_true, decide_eq_true_eq] at he; exact he.2) (typedRuns rows) hf
+  refine ⟨V, F, ?_, v1, v2, v3, v4, f1, f2, f3, f4⟩
+  unfold readTable
+  rw [typeRows_eq rows hok]
+  have v0' : getRange (collectKV (typedRuns rows)) = .ok V := v0
+  have f0' : getRange (collectKF (typedRuns rows)) = .ok F := f0
+  simp only [v0', f0']
+
+/-- non-vacuity: a covered blank, a float cell written `value` before `value-type` and repeated twice, a string
+    cell whose text is its content; second row: a date in column D -/
+example :
+    let txt : List XmlText.Ev :=
+      [.start XmlText.textP [], .text "hi".toUTF8.toList, .end_ XmlText.textP, .end_ XmlText.tableCell]
+    let rows : List (Nat × List CellEv) :=
+      [(1, [⟨.covered, [], 1, []⟩, ⟨.cell, [.value (some 7), .valueType "float"], 2, []⟩,
+            ⟨.cell, [.valueType "string"], 1, txt⟩]),
+       (2, [⟨.cell, [], 3, []⟩, ⟨.covered, [.other, .dateValue "2021-03-04", .valueType "date"], 1, []⟩])]
+    (∀ row ∈ rows, ∀ ev ∈ row.2, CellOk ev) ∧
+    (readTable rows).isOk = true ∧ sheetValue rows 0 3 = .str (txtToString "hi".toUTF8.toList) ∧
+    sheetValue rows 0 2 = .float 7 ∧ sheetValue rows 2 3 = .dateIso "2021-03-04" ∧ sheetValue rows 2 0 = .empty := by
+  refine ⟨?_, rfl, rfl, rfl, rfl, rfl⟩
+  intro row hrow ev hev
+  simp only [List.mem_cons, List.mem_nil_iff, or_false] at hrow
+  rcases hrow with rfl | rfl <;> simp only [List.mem_cons, List.mem_nil_iff, or_false] at hev <;>
+    rcases hev with rfl | rfl | rfl <;> refine ⟨by decide, fun h1 h2 => ?_⟩ <;>
+    first
+    | exact absurd h1 (by decide)
+    | exact absurd h2 (by decide)
+    | exact ⟨_, _, rfl⟩
+
+end OdsSheet
 
